@@ -91,15 +91,56 @@ def o2(ctx):
                 asm["vals"] = (s, [src(e) for e in s.value.args[0].elts], d)
     ok = "vecs" in asm and "vals" in asm and len(asm["vecs"][1]) == 3 and len(asm["vals"][1]) == 3
     if ok:
-        import re
-        dv = [re.sub(r"\D", "", x) for x in asm["vecs"][1]]
-        dl = [re.sub(r"\D", "", x) for x in asm["vals"][1]]
-        ok = dv == dl
+        # pairing by derivation, not by names: the root that does not depend on the shift radical (the trigonometric one) pairs with the
+        # vector that does not; of the two deflated roots the second is computed from the first, and of the two remaining vectors the
+        # second is the cross product of the other two.
+        uses = {}
+        for st_ in ast.walk(nu.node):
+            tg = val_ = None
+            if isinstance(st_, ast.Assign) and len(st_.targets) == 1 and isinstance(st_.targets[0], ast.Name):
+                tg, val_ = st_.targets[0].id, st_.value
+            elif isinstance(st_, ast.AugAssign) and isinstance(st_.target, ast.Name):
+                tg, val_ = st_.target.id, st_.value
+            if tg:
+                uses.setdefault(tg, set()).update(n_.id for n_ in ast.walk(val_) if isinstance(n_, ast.Name) and n_.id != tg)
+
+        def deps(nm):
+            seen_, work_ = set(), [nm]
+            while work_:
+                x_ = work_.pop()
+                for y_ in uses.get(x_, ()):
+                    if y_ not in seen_:
+                        seen_.add(y_)
+                        work_.append(y_)
+            return seen_
+        shift = [st_.targets[0].id for st_ in ast.walk(nu.node) if isinstance(st_, ast.Assign) and isinstance(st_.value, ast.BinOp) and isinstance(st_.value.op, ast.Mult)
+                 and any(isinstance(c_, ast.Call) and (dotted(c_.func) or "").split(".")[-1] in ("sqrt", "safe_sqrt") for c_ in (st_.value.left, st_.value.right))
+                 and isinstance(st_.targets[0], ast.Name)]
+        vals_, vecs_ = asm["vals"][1], asm["vecs"][1]
+        if len(shift) == 1:
+            T_ = shift[0]
+
+            def roles(names):
+                free = [x_ for x_ in names if T_ not in deps(x_)]
+                rest = [x_ for x_ in names if x_ not in free]
+                if len(free) != 1 or len(rest) != 2:
+                    return None
+                a_, b_ = rest
+                if b_ in deps(a_) and a_ not in deps(b_):
+                    a_, b_ = b_, a_
+                elif not (a_ in deps(b_) and b_ not in deps(a_)):
+                    return None
+                return {"first": a_, "second": b_, "free": free[0]}
+            rv, rw = roles(vals_), roles(vecs_)
+            ok = rv is not None and rw is not None and all(vals_.index(rv[k_]) == vecs_.index(rw[k_]) for k_ in ("first", "second", "free"))
+        else:
+            ok = None
     ctx.decide(rule, ok, nu, asm.get("vecs", (None,))[0], construct="values-and-vectors-assembled-in-the-same-order",
                detail=f"evals = {asm.get('vals', (0, '?'))[1]}, evecs = column_stack({asm.get('vecs', (0, '?'))[1]})",
                bad_detail=f"eigenvalues {asm.get('vals', (0, '?'))[1]} and eigenvector columns {asm.get('vecs', (0, '?'))[1]} are assembled in different orders (or not as columns)")
     un = ctx.need(f"{TM}:eigen_sym33_unit")
-    txt = {src(s.targets[0]): s for s in un.node.body if isinstance(s, ast.Assign)}
+    from .common import Unifier
+    u = Unifier(un)
     t = un.params()[0]
     checks = [
         ("cmax", f"np.linalg.norm({t}, ord=np.inf)", "scale is the max norm of the input"),
@@ -107,25 +148,28 @@ def o2(ctx):
         ("scaledTensor", f"cmaxInv * {t}", "input scaled by the inverse scale"),
     ]
     for nm, want, what in checks:
-        s = txt.get(nm)
-        ctx.decide(rule, s is not None and same(s.value, want), un, s, construct=f"unit:{nm}", detail=what,
-                   bad_detail=f"eigen_sym33_unit: `{nm}` is `{src(s.value) if s is not None else 'missing'}`, expected `{want}`")
+        hit = u.assigns(want, target=nm)
+        ctx.decide(rule, len(hit) == 1, un, hit[0] if hit else None, construct=f"unit:{nm}", detail=what,
+                   bad_detail=f"eigen_sym33_unit: no unique definition `{nm} = {want}` (up to names of locals): {what} does not hold")
+    tup = [s_ for s_ in un.node.body if isinstance(s_, ast.Assign) and isinstance(s_.targets[0], ast.Tuple)]
+    ok = len(tup) == 1 and u.match(tup[0], ast.parse("evals, evecs = eigen_sym33_non_unit(scaledTensor)").body[0])
+    ctx.decide(rule, ok, un, tup[0] if tup else None, construct="unit:solver-called-on-the-scaled-tensor", detail="(values, vectors) = eigen_sym33_non_unit(scaled tensor)",
+               bad_detail="eigen_sym33_unit does not call the non-unit solver on the scaled tensor")
     # eigenvalues rescaled by the same factor; vectors normalised per column
-    evs = [s for s in un.node.body if isinstance(s, ast.Assign) and src(s.targets[0]) == "evals"]
-    ok = len(evs) == 1 and same(evs[0].value, "cmax * evals")
-    ctx.decide(rule, ok, un, evs[0] if evs else None, construct="unit:eigenvalues-rescaled-by-the-same-factor", detail="evals = cmax*evals",
-               bad_detail=f"eigenvalues are rescaled as `{src(evs[0].value) if evs else '?'}`, not by the max norm the input was divided by")
-    cols = [s for s in un.node.body if isinstance(s, ast.Assign) and isinstance(s.value, ast.BinOp) and isinstance(s.value.op, ast.Div)
-            and "evecs[:, " in src(s.value)]
-    okc = len(cols) == 3 and all(same(s.value, f"evecs[:, {k}] / np.linalg.norm(evecs[:, {k}])") for k, s in enumerate(cols))
+    evs = u.assigns("cmax * evals", target="evals")
+    ctx.decide(rule, len(evs) == 1, un, evs[0] if evs else None, construct="unit:eigenvalues-rescaled-by-the-same-factor", detail="evals = cmax*evals",
+               bad_detail="eigenvalues are not rescaled by the max norm the input was divided by")
+    cols = []
+    for k in range(3):
+        cols += u.assigns(f"evecs[:, {k}] / np.linalg.norm(evecs[:, {k}])", target=f"evec{k}")
+    okc = len(cols) == 3
     ctx.decide(rule, okc, un, cols[0] if cols else None, construct="unit:columns-normalised-by-own-length", detail="evec_k = evecs[:,k]/|evecs[:,k]|",
                bad_detail="eigenvector columns are not each divided by their own length")
-    cs = [s for s in un.node.body if isinstance(s, ast.Assign) and isinstance(s.value, ast.Call) and (dotted(s.value.func) or "").endswith("column_stack")]
-    okcs = len(cs) == 1 and [src(e) for e in cs[0].value.args[0].elts] == [src(c.targets[0]) for c in cols]
-    ctx.decide(rule, okcs, un, cs[0] if cs else None, construct="unit:normalised-columns-restacked-in-order", detail="column_stack((evec0, evec1, evec2))",
+    cs = u.assigns("np.column_stack((evec0, evec1, evec2))", target="evecs") if okc else []
+    ctx.decide(rule, len(cs) == 1, un, cs[0] if cs else None, construct="unit:normalised-columns-restacked-in-order", detail="column_stack((evec0, evec1, evec2))",
                bad_detail="normalised eigenvectors are not re-stacked as columns in the same order")
     rr = un.returns()
-    ok = len(rr) == 1 and same(rr[0], "(evals, evecs)")
+    ok = len(rr) == 1 and u.match(rr[0], "(evals, evecs)")
     ctx.decide(rule, ok, un, rr[0] if rr else None, construct="unit:returns-(values,vectors)", detail="(evals, evecs)", bad_detail=f"eigen_sym33_unit returns `{src(rr[0]) if rr else '?'}`")
 
 
